@@ -1,0 +1,20 @@
+//go:build verif
+
+// Contracts for package connectors, checked by /verif (govc). Comments only.
+package connectors
+
+// ---- reads happen on the consumer's goroutine (C16). ReadSourceChannel only hands out read
+// FUNCTIONS; the source is read - and its cursor advanced - when the consumer (the source
+// runner's event loop) calls one. The producer goroutine never reads itself: a read-ahead
+// would move the cursor past records that have not been emitted yet, and a checkpoint taken
+// in between would report positions the barrier does not cover.
+//@ func ReadSourceChannel.Start$0
+//@   property C16
+//@   nosafety
+//@   atcall ReadEvents: false
+
+//@ func ReadSourceChannel.Start$1
+//@   property C16
+//@   nosafety
+//@   atcall ReadEvents: same(recv_, c.sourceReader)
+//@   ensures called(ReadEvents)
